@@ -22,23 +22,28 @@ WITNESSES = [
 ]
 
 
-# Candidate defects of /repo found by this check and reported to the lead, who decides between a fix: commit in /repo
-# and an entry in known_findings.json (matched by the same key).  Until then the check prints CANDIDATE-DEFECT for them
-# (with a replay file) instead of VIOLATION.  Remove a key here as soon as it is adjudicated.
-# key -> (what, harness argv after the executable, regex on the harness output that shows the defect)
+# Known classes that show on a fixed witness history rather than through the routing oracle:
+# key -> (what is demanded, harness argv after the executable, regex on the harness output that shows the defect)
 CYCLE = ["q_0", "sr_0", "as_0", "as_0", "pd_0", "ad_0"]
-PENDING_CANDIDATES = {
+LIMIT_PROBES = {
     "limits:server-loan-oom-stale-responses-pin-chunks": (
-        "unread responses stay queued in a channel after its PendingResponse is dropped; a response connection has "
-        "max_servers*2*max_active+max_loaned channels but the server segment is sized for 2*max_active channels: with max_servers=2 "
-        "(one server), rb=2, four request cycles with two unread responses each make the fifth request's send_copy fail with OutOfMemory",
+        "a server must be able to loan a response while all limits are respected: with max_servers=2 (one server), rb=2, four request "
+        "cycles with two unread responses each, the fifth request's send_copy fails with OutOfMemory (unread responses stay queued in "
+        "closed channels; the segment is sized for 2*max_active channels, a connection has max_servers*2*max_active+max_loaned)",
         ["hist", "local", "1.1.2.1.1.2.1.0.0.0.0", "c0+s0"] + CYCLE * 4 + ["q_0", "sr_0", "as_0"],
         r"O as 0 = e:oom"),
     "limits:client-loan-oom-without-request-overflow": (
-        "required_amount_of_chunks_per_client_data_segment (max_servers*2*max_active+max_loaned) does not count the chunk pinned by a live "
-        "PendingResponse whose request no server accepted (buffer full, no request overflow): loan_uninit fails with OutOfMemory with 0 loans outstanding",
+        "a client must be able to loan a request while all limits are respected: without request overflow the chunk pinned by a live "
+        "PendingResponse whose request no server accepted is not counted by required_amount_of_chunks_per_client_data_segment; "
+        "loan_uninit fails with OutOfMemory with 0 loans outstanding",
         ["hist", "local", "1.1.1.1.1.1.1.0.0.0.0", "c0+s0", "q_0", "sr_0", "pd_0", "qd_0", "q_0", "l_0"],
         r"O l 0 = e:oom"),
+}
+# regressions of repaired defects: the history must NOT match the regex any more
+REGRESSION_PROBES = {
+    "fix 99179a3 (failed response loan gives the loan counter back)": (
+        ["hist", "local", "1.1.2.1.1.2.1.0.0.0.0", "c0+s0"] + CYCLE * 4 + ["q_0", "sr_0", "as_0", "al_0"],
+        r"O al 0 = e:maxloans"),
 }
 
 
@@ -187,29 +192,23 @@ def run(ctx):
             ctx.violation("server panics / probe fails after clients vanished with undelivered requests: " + probes[name][:300],
                           {"probe": probes[name], "how_to_rerun": exe + " churn local 6" + (" 1" if name.endswith("faf") else ""),
                            "expected": "receive=n,... (a<i>,... with fire-and-forget) then_held_request_client_vanishes=n"})
-    import json
-    known_keys = {k.get("key") for k in ctx.known}
-    candidates = {}
-    for key, (what, argv, rx) in PENDING_CANDIDATES.items():
+    limit_probes = {}
+    for key, (what, argv, rx) in LIMIT_PROBES.items():
         rc, out = vlib.sh(" ".join([exe] + argv) + " 2>/dev/null", timeout=300)
         hit = re.search(rx, out) is not None
-        if not hit:
-            candidates[key] = {"what": what, "status": "no longer reproduces"}
-            continue
-        body = {"property": "C11", "key": key, "what": what, "history": [l[:200] for l in out.split("\n") if l[:2] in ("C ", "U ", "O ", "PR")][-40:],
-                "how_to_rerun": " ".join([exe] + argv)}
-        if key in known_keys:
-            ctx.violation(what, body, key=key)
-            continue
-        d = os.path.join(VERIF, "replays", "C11")
-        os.makedirs(d, exist_ok=True)
-        path = os.path.join(d, "candidate-" + key.replace(":", "-") + ".json")
-        body["status"] = "candidate, reported to the lead, not adjudicated"
-        open(path, "w").write(json.dumps(body, indent=1, sort_keys=True))
-        print("CANDIDATE-DEFECT: property=C11 key=%s replay=%s %s" % (key, path, what), flush=True)
-        candidates[key] = {"what": what, "replay": path}
+        limit_probes[key] = "reproduces" if hit else "does not reproduce (rc=%s)" % rc
+        if hit:
+            ctx.violation(what, {"history": [l[:200] for l in out.split("\n") if l[:2] in ("C ", "U ", "O ")][-40:],
+                                 "how_to_rerun": " ".join([exe] + argv)}, key=key)
+    for name, (argv, rx) in REGRESSION_PROBES.items():
+        rc, out = vlib.sh(" ".join([exe] + argv) + " 2>/dev/null", timeout=300)
+        bad = rc != 0 or re.search(rx, out) is not None
+        limit_probes[name] = "REGRESSED" if bad else "passes"
+        if bad:
+            ctx.violation("regression of " + name, {"history": [l[:200] for l in out.split("\n") if l[:2] in ("C ", "U ", "O ")][-40:],
+                                                    "how_to_rerun": " ".join([exe] + argv)})
     cleanup()
-    ctx.cov["candidate_defects_pending"] = candidates
+    ctx.cov["limit_probes"] = limit_probes
 
     ctx.cov.update({
         "evaluations": r["cases"], "distinct_nontrivial": r["distinct_nontrivial"],
